@@ -14,7 +14,8 @@ EXPLANATION = ("One structural necessary condition of C20, decided by finite-dom
                "tables, not the equality of the parsers on every text (quotes, escapes, infix detection are not decided).")
 RULES = ("R1 inventory: the term constructor K (crate function taking a text and boolean classification flags) and the "
          "scanners that call it; R2 for every scanner pair, flag and character class: the effect of a first character of that "
-         "class on the flag (always / never / depends) is the same; R3 `str::parse::<i64|f64>` only inside K")
+         "class on the flag (always / never / depends) is the same; R3 `str::parse::<i64|f64>` only inside K; R4 a scanner that walks "
+         "the characters of a text hands that same view of the text (not a differently trimmed one) to the constructor")
 TRUSTED = ["rustc nightly MIR construction",
            "the table is taken for the first and for the second character of a text (scanner state as initialised: no open quote, depth 0); "
            "conditions on neighbouring characters count as `depends`"]
@@ -302,6 +303,81 @@ def table(G, setb, paths, trip=0):
     return out, ""
 
 
+def _closure_verdicts(prog, cpath, depth=0):
+    """{char: "always" | "never" | "depends"}: what a closure over one character answers (its boolean result), following
+    the closures it calls."""
+    import inline
+    pol = inline.helpers(prog)
+    K = pol.closure(cpath)
+    if K is None or depth > 3:
+        return None
+    try:
+        ps = [p for p in Walker(K, max_visits=2, max_paths=20000, inline=pol).paths() if p.end == "return"]
+    except TooManyPaths:
+        return None
+    closures = {x.path for x in prog.lib_bodies() if x.kind == "Closure"}
+    sub = {}
+
+    def test_of(c):
+        """(kind, f) for a boolean term about the scanned character: f(code) -> True / False / None."""
+        c = strip(c)
+        ct = _char_test(c)
+        if ct is not None:
+            return ct[1]
+        if isinstance(c, tuple) and c and c[0] == "call" and c[1] in closures:
+            if c[1] not in sub:
+                sub[c[1]] = _closure_verdicts(prog, c[1], depth + 1)
+            v = sub[c[1]]
+            if v is None:
+                return None
+            names = {code: name for name, code in ALPHABET}
+            return lambda code, v=v: {"always": True, "never": False}.get(v.get(names.get(code)))
+        if isinstance(c, tuple) and c and c[0] == "unop" and c[1] == "Not":
+            f = test_of(c[2])
+            return (lambda code, f=f: (None if f(code) is None else not f(code))) if f is not None else None
+        if isinstance(c, tuple) and c and c[0] == "const" and c[1] == "bool" and c[3] is not None:
+            return lambda code, b=bool(c[3]): b
+        return None
+    out = {}
+    seen_test = False
+    for name, code in ALPHABET:
+        res = []
+        for p in ps:
+            ok = True
+            for e in p.events:
+                if e["k"] != "branch" or not isinstance(e["value"], bool):
+                    continue
+                f = test_of(e["cond"])
+                if f is None:
+                    continue
+                seen_test = True
+                val = f(code)
+                if val is not None and val != e["value"]:
+                    ok = False
+                    break
+            if not ok:
+                continue
+            f = test_of(p.ret)
+            if f is not None:
+                seen_test = True
+            res.append(f(code) if f is not None else None)
+        if res and all(x is True for x in res):
+            out[name] = "always"
+        elif not res or all(x is False for x in res):
+            out[name] = "never"
+        else:
+            out[name] = "depends"
+    return out if seen_test else None
+
+
+def any_table(prog, t):
+    """A flag computed as `chars.iter().any(|c| ..)`: per character, does the closure say yes?  {char: verdict}"""
+    cas = t["callee"].get("closure_args") or []
+    if not cas:
+        return None
+    return _closure_verdicts(prog, cas[0]["closure"])
+
+
 def run(ctx):
     prog = ctx.prog
     bodies = [b for b in prog.lib_bodies() if b.kind in ("Fn", "AssocFn")]
@@ -340,7 +416,9 @@ def run(ctx):
                 if all(r[0] == "local" and 1 <= r[1] <= g.mir["arg_count"] for r in roots) and g.path in cands:
                     forwards.add(g.path)
                     continue
-                if all(r[0] == "local" for r in roots):
+                def usable(r):
+                    return r[0] == "local" or (r[0] == "call" and (r[1]["callee"].get("path") or "").endswith("::any"))
+                if all(usable(r) for r in roots):
                     scanners.setdefault(g.path, (g, "bools", [r[1] for r in roots], [by_path[nm].locals[j].get("name") or "flag%d" % k
                                                                                    for k, j in enumerate(car[1])]))
             else:
@@ -373,7 +451,7 @@ def run(ctx):
         ("; passed on unchanged by %s" % sorted(x.split("::")[-1] for x in forwards)) if forwards else ""))
     ctx.floor("R1", len(scanners), 2, "scanners that classify a text for the term constructor")
     # ---- R2: tables ------------------------------------------------------------------------------------------------------
-    tables, flag_names = {}, {}
+    tables, flag_names, any_mode = {}, {}, {}
     for gp, (g, kind, handles, names) in sorted(scanners.items()):
         ctx.fn(g)
         try:
@@ -382,18 +460,36 @@ def run(ctx):
             ctx.ob("R2", "table(%s)" % g.npath, False, ctx.where(g), "too many paths")
             continue
         ctx.stats["paths_walked"] += len(paths)
+        any_flags = {}
         if kind == "bools":
-            setb = [_set_blocks(g, l) for l in handles]
+            setb = []
+            for k_, h_ in enumerate(handles):
+                if isinstance(h_, dict):            # a flag that is the value of `..any(|c| ..)`
+                    any_flags[k_] = any_table(prog, h_)
+                    setb.append(set())
+                else:
+                    setb.append(_set_blocks(g, h_))
         else:
             setb = [_set_blocks_field(g, handles[0], f) for f in handles[1]]
-        tb, why = table(g, setb, paths, 0)
-        tb2, why2 = table(g, setb, paths, 1)
-        if tb is None or tb2 is None:
-            ctx.ob("R2", "table(%s)" % g.npath, False, ctx.where(g), why or why2)
+        if any(v is None for v in any_flags.values()):
+            ctx.ob("R2", "table(%s)" % g.npath, False, ctx.where(g), "a flag computed by `any(..)` whose closure cannot be read")
             continue
+        if len(any_flags) == len(setb):
+            tb, tb2 = {}, {}
+        else:
+            tb, why = table(g, setb, paths, 0)
+            tb2, why2 = table(g, setb, paths, 1)
+            if tb is None or tb2 is None:
+                ctx.ob("R2", "table(%s)" % g.npath, False, ctx.where(g), why or why2)
+                continue
         tb = dict(tb)
         for (k, ch), v in tb2.items():
             tb[(k, "later:" + ch)] = v
+        for k_, at in any_flags.items():
+            for ch, v in at.items():
+                tb[(k_, ch)] = v
+                tb[(k_, "later:" + ch)] = v
+        any_mode[gp] = set(any_flags)
         tables[gp] = tb
         flag_names[gp] = list(names)
         ctx.ob("R2", "table(%s)" % g.npath, True, ctx.where(g),
@@ -410,12 +506,54 @@ def run(ctx):
                 g_other = scanners[other][0]
                 # at a later position "depends" can mean "depends on the characters before", which this abstraction does not
                 # follow: only definite disagreements (always against never) are reported there
-                same = (v == w) or (ch.startswith("later:") and "depends" in (v, w))
+                same = (v == w) or (ch.startswith("later:") and "depends" in (v, w)) or \
+                    ((k in any_mode.get(ref, ()) or k in any_mode.get(other, ())) and "depends" in (v, w))   # `any(closure)`: captured state
                 ctx.ob("R2", "agree(%r,%s)" % (ch, nm), same, ctx.where(g_other),
                        ("a character %r (%s) sets `%s` %s in %s but %s in %s: the same text is classified differently depending on "
                         "where it is written" % (ch.split(":")[-1], "not the first of the text" if ch.startswith("later:") else "first of the text",
                                                  nm, v, ref.split("::")[-1], w, other.split("::")[-1])) if not same else
                        "%r: `%s` %s in both scanners" % (ch, nm, v))
+    # ---- R4: a scanner that walks the characters of a text classifies the very text it hands on --------------------------------
+    def peel(t, names):
+        t = strip(t)
+        while isinstance(t, tuple) and t and ((t[0] == "call" and t[1].split("::")[-1] in names and t[2]) or t[0] in ("ref", "deref")):
+            t = strip(t[2][0]) if t[0] == "call" else strip(t[1])
+        return t
+    light = ("deref", "as_str", "as_ref", "borrow", "clone", "to_string", "to_owned", "index")
+    heavy = light + ("trim", "trim_start", "trim_end")
+    for gp, (g, kind, handles, names) in sorted(scanners.items()):
+        try:
+            paths = Walker(g, max_visits=2, max_paths=200000).paths()
+        except TooManyPaths:
+            continue
+        ok4, why4, n4 = True, "", 0
+        for p in paths:
+            for e in p.events:
+                if e["k"] != "call" or e["callee"] not in cands:
+                    continue
+                kb_ = by_path[e["callee"]]
+                tpos = next((j for j in range(1, kb_.mir["arg_count"] + 1) if kb_.locals[j]["s"] in ("&str", "std::string::String", "&std::string::String")), None)
+                if tpos is None:
+                    continue
+                handed = e["args"][tpos - 1]
+                scanned = []
+                for x in p.events:
+                    if x["k"] == "branch":
+                        ct = _char_test(x["cond"])
+                        if ct is not None:
+                            mentions(ct[0], lambda t: scanned.append(t) or False if (t[0] == "call" and t[1].endswith("::chars") and t[2]) else False)
+                if not scanned:
+                    continue
+                src = strip(scanned[0][2][0])
+                if peel(src, heavy) != peel(handed, heavy):
+                    continue            # the text handed on is built up separately (an argument collected character by character)
+                n4 += 1
+                if peel(src, light) != peel(handed, light):
+                    ok4, why4 = False, ("the characters classified are those of `%s`, the text handed to the constructor is `%s`: leading or "
+                                        "trailing blanks shift the positions the classification looks at" % (show(peel(src, light))[:40], show(peel(handed, light))[:40]))
+        if n4:
+            ctx.ob("R4", "scans-the-text-it-hands-on(%s)" % g.npath, ok4, ctx.where(g), why4 or
+                   "the scanned text and the text handed to the constructor are the same view of the input (%d call(s))" % n4)
     # ---- R3: number conversion only in the constructor -------------------------------------------------------------------
     bad = None
     n = 0
